@@ -258,6 +258,21 @@ impl KotoVm {
         &self.exports
     }
 
+    /// Verification hook: the sizes of the VM's internal stacks
+    ///
+    /// Returns `(registers, call stack, sequence builders, string builders, register base)`.
+    /// Read-only, and only compiled in with `--cfg koto_verif`.
+    #[cfg(koto_verif)]
+    pub fn verif_stack_sizes(&self) -> (usize, usize, usize, usize, usize) {
+        (
+            self.registers.len(),
+            self.call_stack.len(),
+            self.sequence_builders.len(),
+            self.string_builders.len(),
+            self.register_base,
+        )
+    }
+
     /// Returns a mutable reference to the active module's exports map
     pub fn exports_mut(&mut self) -> &mut KMap {
         &mut self.exports
